@@ -199,9 +199,14 @@ def gen_tables(manifest):
         raise SystemExit("translate: VarInt::MAX not found")
     vals["varintMax"] = (1 << int(m.group(1))) - 1
     labels = sorted(set(re.findall(r'b"([a-z ]+)"', ks)))
+    # the prefix every label gets: `[b"MLS 1.0 ", label].concat()`, possibly through a constant
     prefix = re.search(r'\[b"(MLS 1\.0 )",\s*label\]', ks)
     if not prefix:
-        raise SystemExit("translate: label prefix not found")
+        cands = set(re.findall(r'b"(MLS \d\.\d )"', ks))
+        if len(cands) != 1 or not re.search(r"\[\s*[\w:]+\s*,\s*label\s*\]\s*\.concat\(\)", ks):
+            raise SystemExit("translate: label prefix not found")
+        prefix = re.match(r"(.*)", cands.pop())
+    labels = [l for l in labels if l + " " != prefix.group(1)]
     stl = sorted(set(re.findall(r'b"([a-z]+)"', st)))
     out = ["/- GENERATED by tools/translate.py from the Rust sources; do not edit. -/", "namespace MlsVerif.Gen.Tables", ""]
     for k, v in vals.items():
@@ -321,26 +326,45 @@ def main():
     for f in files:
         manifest["sources"][f] = hashlib.sha256(read(f).encode()).hexdigest()[:16]
     changed = []
-    if write_if_changed(os.path.join(OUT, "Pipelines.lean"), gen_pipelines(manifest)):
-        changed.append("Pipelines")
-    if write_if_changed(os.path.join(OUT, "Tables.lean"), gen_tables(manifest)):
-        changed.append("Tables")
-    if write_if_changed(os.path.join(OUT, "Framing.lean"), gen_framing(manifest)):
-        changed.append("Framing")
+    status = {}
+
+    def gen(name, f):
+        """One generator = one Lean file.  A generator that cannot read the source as it is now leaves the previous file in
+        place (so that everything that does not depend on it still builds) and is reported in `status`; a check whose property
+        modules import that file then counts the tie as broken, the other checks are not affected."""
+        try:
+            text = f()
+            if write_if_changed(os.path.join(OUT, name + ".lean"), text):
+                changed.append(name)
+            status[name] = "ok"
+        except SystemExit as e:
+            status[name] = "error: " + str(e)
+        except Exception as e:  # noqa: BLE001
+            status[name] = "error: " + repr(e)[:300]
+
+    gen("Pipelines", lambda: gen_pipelines(manifest))
+    gen("Tables", lambda: gen_tables(manifest))
+    gen("Framing", lambda: gen_framing(manifest))
     schemas = os.path.join(os.path.dirname(os.path.abspath(__file__)), "translate_schemas.py")
     if os.path.exists(schemas):
         import importlib.util
         spec = importlib.util.spec_from_file_location("translate_schemas", schemas)
         mod = importlib.util.module_from_spec(spec)
         spec.loader.exec_module(mod)
-        if write_if_changed(os.path.join(OUT, "Schemas.lean"), mod.generate(REPO, manifest)):
-            changed.append("Schemas")
-        write_if_changed(os.path.join(OUT, "schemas.txt"), manifest.pop("_schemas_txt", ""))
-        if write_if_changed(os.path.join(OUT, "Codecs.lean"), manifest.pop("_codecs_lean", "")):
-            changed.append("Codecs")
-        write_if_changed(os.path.join(OUT, "codecs.txt"), manifest.pop("_codecs_txt", ""))
+        gen("Schemas", lambda: mod.generate(REPO, manifest))
+        if status.get("Schemas") == "ok":
+            write_if_changed(os.path.join(OUT, "schemas.txt"), manifest.pop("_schemas_txt", ""))
+            gen("Codecs", lambda: manifest.pop("_codecs_lean", ""))
+            write_if_changed(os.path.join(OUT, "codecs.txt"), manifest.pop("_codecs_txt", ""))
+        else:
+            status["Codecs"] = status["Schemas"]
+        for k in [k for k in manifest if k.startswith("_")]:
+            manifest.pop(k)
+    manifest["status"] = status
     json.dump(manifest, open(os.path.join(OUT, "gen_manifest.json"), "w"), indent=1)
-    print("translate: regenerated", changed or "nothing (unchanged)")
+    failed = {k: v for k, v in status.items() if v != "ok"}
+    print("translate: regenerated", changed or "nothing (unchanged)", ("FAILED " + json.dumps(failed)) if failed else "")
+    sys.exit(3 if failed else 0)
 
 
 if __name__ == "__main__":
